@@ -175,8 +175,11 @@ def _judge(case, out, clock, CS):
             if r.action == "CIRCUIT_OPEN":
                 out.fail("disabled:circuit-open", "CIRCUIT_OPEN although the breaker is disabled", d)
                 return
-            if not r.cached and dcalls[0] != 1:
-                out.fail("disabled:agents-not-consulted", "executor not consulted on a non-cached request with the breaker disabled", d)
+            if not r.cached and dcalls == (0, 0):
+                # "agents are always consulted": the request reaches the agent stage.  Which agent is asked first, and whether the second
+                # is still asked after the first one raised, is the guard's business (C07), not the breaker's (benign round: a refactor
+                # that asks the assessor first was reported because this line demanded the executor specifically)
+                out.fail("disabled:agents-not-consulted", "no agent consulted on a non-cached request with the breaker disabled", d)
                 return
             if kind.startswith("raise_") or r.action == "FAILURE":
                 def_fail_total += 1
